@@ -411,6 +411,8 @@ class Valuation:
         self.assign = dict(assign or {})
         self.domain = domain  # callable(leaf, rng) -> int | None
         self.rng = random.Random(seed)
+        self.call_models = None  # callee name -> python function of the evaluated arguments (a rule's abstract model)
+        self.pool = None  # boundary phase: the constants the compared terms test against (see equiv)
 
     def leaf(self, t):
         if t in self.assign:
@@ -424,9 +426,19 @@ class Valuation:
         if self.domain is not None:
             v = self.domain(t, random.Random(_h(self.seed, t)))
         if v is None:
-            v = default_domain(t, random.Random(_h(self.seed, t)))
+            if self.pool and _h(self.seed, "pool?", t) % 5 < 2:
+                v = self.pool[_h(self.seed, "pool", t) % len(self.pool)]
+            else:
+                v = default_domain(t, random.Random(_h(self.seed, t)))
         self.assign[t] = v
         return v
+
+    def shaped(self, h):
+        """The value of an uninterpreted application with hash `h`: in the boundary phase half of them are drawn from the
+        pool (still a function of the symbol and the evaluated arguments, so equal applications stay equal)."""
+        if self.pool and _h(self.seed, "shape?", h) & 1:
+            return self.pool[_h(self.seed, "shape", h) % len(self.pool)]
+        return h
 
 
 def default_domain(t, rng: random.Random) -> int:
@@ -542,6 +554,10 @@ def ev(t, val: Valuation):
             return vals[0]
         return _h("join", tuple(sorted(repr(_key(v)) for v in vals)))
     if k == "call":
+        cm = val.call_models.get(t[1]) if val.call_models else None
+        if cm is not None:
+            # a rule's abstract model of a callee (e.g. "find_shot(g) is the record of snapshot g"): an interpreted symbol
+            return cm(*[ev(x, val) for x in t[2]], **{a: ev(v, val) for a, v in t[3]})
         if t[1] in _MODELS:
             try:
                 return _MODELS[t[1]](*[ev(x, val) for x in t[2]])
@@ -555,11 +571,15 @@ def ev(t, val: Valuation):
         shaper = val.call_values.get(t[1]) if val.call_values else None
         if shaper is not None:
             return shaper(h)  # still a function of the evaluated arguments, but drawn from a chosen range
-        return h
+        return val.shaped(h)
     if k == "attr":
         b = ev(t[1], val)
         if isinstance(b, _CInt) and t[2] == "value":
             return b.value
+        if isinstance(b, Rec):
+            if t[2] in b.fields:
+                return b.fields[t[2]]
+            raise EvalError(f"record {b.tag} has no field {t[2]}")
         return _h("attr", _key(b), t[2])
     if k == "sub":
         b, i = ev(t[1], val), ev(t[2], val)
@@ -570,12 +590,12 @@ def ev(t, val: Valuation):
                 return b[i]
             except Exception:
                 # containers are filled by mutation the terms do not track: treat as an uninterpreted look-up
-                return _h("sub", _key(b), _key(i))
-        return _h("sub", _key(b), _key(i))
+                return val.shaped(_h("sub", _key(b), _key(i)))
+        return val.shaped(_h("sub", _key(b), _key(i)))
     if k == "slice":
         return ("slice",) + tuple(_key(ev(x, val)) for x in t[1:])
     if k == "iter":
-        return _h("iter", _key(ev(t[1], val)), t[2])
+        return val.shaped(_h("iter", _key(ev(t[1], val)), t[2]))
     if k == "comp":
         # a comprehension as a whole is an uninterpreted function of its parts (element, iterable, filters)
         return _h("comp", t[1], _key(ev(t[3], val)), repr(t[2]), repr(t[4]))
@@ -594,6 +614,23 @@ def ev(t, val: Valuation):
     if k == "arrtype":
         return _h(k, repr(t[1]), _key(ev(t[2], val)))
     raise EvalError(f"cannot evaluate {k}")
+
+
+class Rec:
+    """An abstract object of a rule's model: named fields, identity by tag."""
+
+    def __init__(self, tag, **fields):
+        self.tag = tag
+        self.fields = fields
+
+    def __repr__(self):
+        return f"<{self.tag}>"
+
+    def __eq__(self, other):
+        return isinstance(other, Rec) and other.tag == self.tag
+
+    def __hash__(self):
+        return hash(("Rec", self.tag))
 
 
 class _CInt:
@@ -626,6 +663,10 @@ _MODELS = {
     ".lower": lambda s: _txt(s).lower(), ".upper": lambda s: _txt(s).upper(), ".casefold": lambda s: _txt(s).casefold(),
     ".strip": lambda s, *a: _txt(s).strip(*a), ".lstrip": lambda s, *a: _txt(s).lstrip(*a), ".rstrip": lambda s, *a: _txt(s).rstrip(*a),
     ".replace": lambda s, a, b, *c: _txt(s).replace(a, b, *c), ".find": lambda s, *a: _txt(s).find(*a),
+    ".decode": lambda s, *a, **k: _buf(s).decode(*a, **k), ".encode": lambda s, *a, **k: _str(s).encode(*a, **k),
+    ".index": lambda s, *a: _txt(s).index(*a), ".rfind": lambda s, *a: _txt(s).rfind(*a), ".count": lambda s, *a: _txt(s).count(*a),
+    ".splitlines": lambda s, *a: tuple(_txt(s).splitlines(*a)), ".isdigit": lambda s: _txt(s).isdigit(), ".title": lambda s: _txt(s).title(),
+    ".ljust": lambda s, *a: _txt(s).ljust(*a), ".rjust": lambda s, *a: _txt(s).rjust(*a), ".zfill": lambda s, *a: _txt(s).zfill(*a),
     # look-up in a constant dictionary
     ".get": lambda d, k, default=None: _dict(d).get(k, default),
     # struct on concrete buffers
@@ -663,6 +704,12 @@ def _buf(x):
     if not isinstance(x, (bytes, bytearray)):
         raise TypeError("not a buffer")
     return bytes(x)
+
+
+def _str(x):
+    if not isinstance(x, str):
+        raise TypeError("not a str")
+    return x
 
 
 def _txt(x):
@@ -733,4 +780,45 @@ def equiv(a, b, domain=None, n=160, seed=0, override=None, fields=None, assume=N
             return EqResult(False, "identity-testing", wit, tried, skipped)
     if tried < max(8, n // 8):
         return EqResult(None, "no-valuation-in-domain", None, tried, skipped)
+    # boundary phase: random integers almost never hit the constants the terms themselves compare against (`entry == 0`,
+    # `n < 2`); a further round draws leaves and uninterpreted look-ups from those constants and their neighbours
+    pool = boundary_pool((a, b) + tuple(c for c, _ in (assume or ())))
+    if pool:
+        btried = 0
+        for i in range(n * (12 if assume else 3)):
+            if btried >= n:
+                break
+            val = Valuation(seed * 100003 + 7919 + i, domain=domain, override=override, fields=fields)
+            val.pool = pool
+            try:
+                if assume and not all(bool(ev(c, val)) == bool(p) for c, p in assume):
+                    continue
+                va = ev(a, val)
+                vb = ev(b, val)
+            except EvalError:
+                continue
+            except RecursionError:
+                break
+            btried += 1
+            if _key(va) != _key(vb):
+                wit = {show(k): v for k, v in val.assign.items()}
+                wit["__lhs"] = _key(va) if not isinstance(va, tuple) else repr(va)
+                wit["__rhs"] = _key(vb) if not isinstance(vb, tuple) else repr(vb)
+                return EqResult(False, "identity-testing:boundary", wit, tried + btried, skipped)
+        tried += btried
     return EqResult(True, "identity-testing", None, tried, skipped)
+
+
+def boundary_pool(terms) -> list:
+    """Integer constants compared against in the terms, with their neighbours."""
+    out = set()
+    for t in terms:
+        for x in walk(t):
+            if isinstance(x, tuple) and x and x[0] == "cmp":
+                for side in x[2:4]:
+                    if isinstance(side, tuple) and side[0] == "c" and isinstance(side[1], int) and not isinstance(side[1], bool) and abs(side[1]) < 1 << 64:
+                        out.update((side[1] - 1, side[1], side[1] + 1))
+            elif isinstance(x, tuple) and x and x[0] == "ite":
+                out.update((0, 1))  # truthiness tests
+    out.discard(-1) if 0 in out and -2 not in out else None
+    return sorted(out)
